@@ -536,7 +536,9 @@ def run(chk):
     cases = K.site_cases(src)
     ec, prov = K.expectation_cases(src)
     chk.table("expectation_operand_provenance", prov)
-    cases += ec + transfer_cases(src)
+    cases += ec
+    from .chain_rules import transfer_rule
+    transfer_rule(chk, src, "env-network")
     add_cases(chk, "env-network", cases, "observable kernel")
     chk.extra["specs_interpreted"] = sorted({c_[1] for c in cases for c_ in c.calls if isinstance(c_[1], str)})[:80]
     kernel_arg_rule(chk, src)
